@@ -268,6 +268,20 @@ def generate(prop, g, tier):
         for t in tasks:
             t["warmup-time-period"] = max(t["warmup-time-period"], ramp)
         cfg["ramp"] = ramp
+    if g.coin(0.25):
+        # defaults on the parallel element: tasks inherit them or override them with values of their own (0 included)
+        d = None
+        if all(("iterations" in t or "warmup-iterations" in t) and "time-period" not in t and t["op"] != "sim-poll" for t in tasks):
+            d = {"warmup-iterations": g.pick([1, 2, 3]), "iterations": g.pick([1, 2, 4])}
+        elif all("time-period" in t and "warmup-time-period" in t and "iterations" not in t for t in tasks) and not cfg.get("ramp"):
+            d = {"warmup-time-period": g.pick([0.3, 1.0]), "time-period": g.pick([0.2, 1.0])}
+        if d:
+            cfg["par_defaults"] = d
+            for t in tasks:
+                for k in d:
+                    if k not in t or g.coin(0.4):
+                        t[k] = d[k]
+                        t.setdefault("inherit", []).append(k)
     # split the clients into contiguous worker groups
     nworkers = min(total, g.pick([1, 1, 2, 3] + ([4, 5] if big else [])))
     cuts = sorted(g.sample(range(1, total), nworkers - 1)) if nworkers > 1 else []
@@ -312,10 +326,11 @@ def track_spec(cfg):
             op["method"] = "GET"
         task = {"name": t["name"], "operation": op, "clients": t["clients"]}
         for k in ("warmup-iterations", "iterations", "warmup-time-period", "time-period", "target-throughput", "target-interval", "schedule"):
-            if k in t:
+            if k in t and k not in t.get("inherit", []):
                 task[k] = t[k]
         tasks.append(task)
     par = {"tasks": tasks}
+    par.update(cfg.get("par_defaults") or {})
     if cfg.get("ramp"):
         par["ramp-up-time-period"] = cfg["ramp"]
     return {"indices": [], "challenges": [{"name": "c", "default": True, "schedule": [{"parallel": par}]}]}
